@@ -871,6 +871,23 @@ Definition step (s : chain) (o : op) : chain * out :=
 
 Definition run (s : chain) (ops : list op) : chain := fold_left (fun st o => fst (step st o)) ops s.
 
+(* ---- parameter updates -------------------------------------------------------------------------------------------------------------
+   x/subaccount/keeper/msg_server_params.go UpdateParams under the governance authority: not a user transaction, kept outside `op` (whose
+   theorems quantify over what accounts can send); a history with parameter changes is a list of gop *)
+Definition set_sub_params (s : chain) (w d : bool) : chain :=
+  {| c_bank := c_bank s; c_now := c_now s; c_height := c_height s; c_prm := c_prm s; c_vault := c_vault s;
+     c_ms := c_ms s; c_mqueue := c_mqueue s; c_bqueue := c_bqueue s; c_betcnt := c_betcnt s; c_uid2id := c_uid2id s;
+     c_settledix := c_settledix s; c_grants := c_grants s; c_mparams := c_mparams s; c_minter := c_minter s;
+     c_supply := c_supply s; c_props := c_props s; c_propcnt := c_propcnt s; c_subs := c_subs s;
+     c_subnext := c_subnext s; c_sub_wager := w; c_sub_deposit := d; c_halted := c_halted s |}.
+Inductive gop := GUser (o : op) | GSubParams (w d : bool).
+Definition gstep (s : chain) (g : gop) : chain * out :=
+  match g with
+  | GUser o => step s o
+  | GSubParams w d => if c_halted s then (s, Panic) else (set_sub_params s w d, Ok)
+  end.
+Definition grun (s : chain) (gs : list gop) : chain := fold_left (fun st g => fst (gstep st g)) gs s.
+
 (* genesis: empty custom stores, the given balances, params, vault and mint configuration *)
 Definition init (bk : bank) (supply : Z) (P : params) (vault : list Z) (MP : mparams) (t0 : Z) (sw sd : bool) : chain :=
   {| c_bank := bk; c_now := t0; c_height := 0; c_prm := P; c_vault := vault; c_ms := []; c_mqueue := [];
